@@ -56,6 +56,24 @@ fn sharded_pre(p: usize, s: usize) -> u8 {
     loc
 }
 
+/// Concrete location of the key (0 absent, 1 primary, 2 secondary); shard directories may be missing.
+fn sharded_pre_at(p: usize, s: usize, loc: u8) {
+    let mut sh = 0;
+    while sh < 3 {
+        if kani::any() {
+            kfs::mkdir(dir_of(sh));
+        }
+        sh += 1;
+    }
+    if loc == 1 {
+        kfs::mkdir(dir_of(p));
+        kfs::install(dir_of(p), kfs::S_A, kfs::any_published(kfs::S_A, 50));
+    } else if loc == 2 {
+        kfs::mkdir(dir_of(s));
+        kfs::install(dir_of(s), kfs::S_A, kfs::any_published(kfs::S_A, 50));
+    }
+}
+
 fn new_cache() -> Cache {
     let cap: usize = kani::any();
     let c = Cache::new(kfs::path_of(kfs::D_S, kfs::NONE), 3, cap);
@@ -137,13 +155,21 @@ kfs_harness! {
     }
 }
 
-fn sharded_write_case(put: bool, p: usize, s: usize, env: u8, fault: bool) {
+/// `loc` and the load pattern are concrete per harness so that the shard chosen by the write (and
+/// with it every path) is syntactically constant: a merged (symbolic) shard directory makes std's
+/// path parser unwind to its bound (measured: 1 h time-outs).  `heavy_primary`: the handle believes
+/// the primary candidate is the more loaded one (so the candidates are considered in swapped order).
+fn sharded_write_case(put: bool, p: usize, s: usize, loc: u8, heavy_primary: bool, env: u8, fault: bool) {
     kfs::reset();
     symbolic_mount();
-    let loc = sharded_pre(p, s);
+    sharded_pre_at(p, s, loc);
     kfs::mkdir(kfs::D_X);
     let src = kfs::user_source(kfs::D_X, 0, kfs::S_A, 9, true);
-    let cache = new_cache();
+    let cap: usize = kani::any();
+    let cache = Cache::new(kfs::path_of(kfs::D_S, kfs::NONE), 3, cap);
+    if heavy_primary {
+        cache.load_estimates[p].store(200, Relaxed);
+    }
     let key = Key::new(kfs::KEY_A, kani::any(), kani::any());
     kfs::k().env = env;
     if env != kfs::ENV_NONE {
@@ -194,52 +220,38 @@ fn sharded_write_case(put: bool, p: usize, s: usize, env: u8, fault: bool) {
         assert!(st.failed, "KV-C18: errors only when a filesystem call failed");
     }
     assert!(kfs::tree_valid(), "KV-C02: the tree is valid when the operation returns");
-    kani::cover!(r.is_ok() && loc == 2, "write onto a key living in its secondary shard");
-    kani::cover!(r.is_ok() && loc == 0 && in_s != kfs::NONE, "fresh key stored in the secondary candidate (load balancing)");
-    kani::cover!(r.is_ok() && st.kind_calls[kfs::C_MKDIR as usize] > 0, "missing shard directory created on demand");
+    kani::cover!(r.is_ok(), "write succeeded");
+    if !heavy_primary && loc == 0 {
+        kani::cover!(r.is_ok() && st.kind_calls[kfs::C_MKDIR as usize] > 0, "missing shard directory created on demand");
+    }
     std::mem::forget(r);
 }
 
-kfs_harness! {
-    #[kani::unwind(48)]
-    #[kani::stub(crate::sharded::Cache::shard_ids, ids_01)]
-    #[kani::stub(crate::sharded::Cache::random_shard_id, random_2)]
-    #[kani::stub(crate::raw_cache::prune, crate::kv_kfs::spec_prune)]
-    fn sharded_set_01_seq() {
-        sharded_write_case(false, 0, 1, kfs::ENV_NONE, false);
-    }
+macro_rules! sharded_write_harness {
+    ($name:ident, $ids:ident, $put:expr, $p:expr, $s:expr, $loc:expr, $heavy:expr, $env:expr, $fault:expr) => {
+        kfs_harness! {
+            #[kani::unwind(48)]
+            #[kani::stub(crate::sharded::Cache::shard_ids, $ids)]
+            #[kani::stub(crate::sharded::Cache::random_shard_id, random_2)]
+            #[kani::stub(crate::raw_cache::prune, crate::kv_kfs::spec_prune)]
+            fn $name() {
+                sharded_write_case($put, $p, $s, $loc, $heavy, $env, $fault);
+                if $fault {
+                    kani::cover!(kfs::k().failed, "fault fired");
+                }
+            }
+        }
+    };
 }
-
-kfs_harness! {
-    #[kani::unwind(48)]
-    #[kani::stub(crate::sharded::Cache::shard_ids, ids_10)]
-    #[kani::stub(crate::sharded::Cache::random_shard_id, random_2)]
-    #[kani::stub(crate::raw_cache::prune, crate::kv_kfs::spec_prune)]
-    fn sharded_put_10_seq() {
-        sharded_write_case(true, 1, 0, kfs::ENV_NONE, false);
-    }
-}
-
-kfs_harness! {
-    #[kani::unwind(48)]
-    #[kani::stub(crate::sharded::Cache::shard_ids, ids_01)]
-    #[kani::stub(crate::sharded::Cache::random_shard_id, random_2)]
-    #[kani::stub(crate::raw_cache::prune, crate::kv_kfs::spec_prune)]
-    fn sharded_set_01_env() {
-        sharded_write_case(false, 0, 1, kfs::ENV_FULL, false);
-    }
-}
-
-kfs_harness! {
-    #[kani::unwind(48)]
-    #[kani::stub(crate::sharded::Cache::shard_ids, ids_01)]
-    #[kani::stub(crate::sharded::Cache::random_shard_id, random_2)]
-    #[kani::stub(crate::raw_cache::prune, crate::kv_kfs::spec_prune)]
-    fn sharded_put_01_fault() {
-        sharded_write_case(true, 0, 1, kfs::ENV_NONE, true);
-        kani::cover!(kfs::k().failed, "fault fired");
-    }
-}
+// key absent, in its primary, in its secondary candidate; the handle's load estimates either all 0
+// (as a fresh handle has) or claiming the primary is the heavier shard
+sharded_write_harness!(sharded_set_absent, ids_01, false, 0, 1, 0, false, kfs::ENV_NONE, false);
+sharded_write_harness!(sharded_set_in_secondary, ids_01, false, 0, 1, 2, false, kfs::ENV_NONE, false);
+sharded_write_harness!(sharded_set_in_primary_heavy, ids_01, false, 0, 1, 1, true, kfs::ENV_NONE, false);
+sharded_write_harness!(sharded_put_in_secondary, ids_10, true, 1, 0, 2, false, kfs::ENV_NONE, false);
+sharded_write_harness!(sharded_put_absent_heavy, ids_01, true, 0, 1, 0, true, kfs::ENV_NONE, false);
+sharded_write_harness!(sharded_set_absent_env, ids_01, false, 0, 1, 0, false, kfs::ENV_FULL, false);
+sharded_write_harness!(sharded_put_absent_fault, ids_01, true, 0, 1, 0, false, kfs::ENV_NONE, true);
 
 // ---- no maintenance due: a write is a constant number of calls and never lists a directory (C20) ----
 kfs_harness! {
@@ -251,7 +263,7 @@ kfs_harness! {
     fn sharded_write_notrigger() {
         kfs::reset();
         kfs::k().trigger_mode = 1;
-        let _loc = sharded_pre(0, 1);
+        sharded_pre_at(0, 1, 0);
         kfs::mkdir(kfs::D_X);
         let _src = kfs::user_source(kfs::D_X, 0, kfs::S_A, 9, true);
         // a large cache whose load estimates are far below capacity: no forced maintenance either
